@@ -466,7 +466,66 @@ class C06(CoreCheck):
                     "Hf0:" + "/".join(hf), "Hk0:" + rng.choice(["kr0/kr0/-", "kr0/-", "kr1/-", "kr0 kr1/kr0/-"]),
                     "Hk1:" + rng.choice(["-", "kr0/-", "kr1/-"]), "Ht0:-"]
             cases.append(";".join(secs))
+        # loops that live for more than 2^16 iterations (the round counter of iv_task.c is 32 bits wide; the stamps
+        # in the task objects must be as wide): self-re-registering tasks / ping-pong pairs for 66000+ iterations
+        for _ in range(2 if ctx.tier == "quick" else 4):
+            be = rng.choice(self.backends)
+            m = rng.choice([66000, 67000, 70000])
+            body = rng.choice(["S kr0;Hk0:kr0", "S kr0;Hk0:kr1;Hk1:kr0", "S kr0 tr0+1000000;Hk0:kr0;Ht0:tr0+1000000"])
+            cases.append("LONGRUN B%s;M%d;%s" % (be, m, body))
         return cases
+
+    def correspond(self, ctx, cases):
+        return _impl_and_monitors_only(self, ctx, cases, "LONGRUN ", CoreCheck.correspond, "loop living beyond 2^16 iterations")
+
+    def shrink(self, ctx, case):
+        return case if case.startswith("LONGRUN ") else CoreCheck.shrink(self, ctx, case)
+
+    def widen(self, ctx, case):
+        return [] if case.startswith("LONGRUN ") else CoreCheck.widen(self, ctx, case)
+
+    def distribution(self, cases):
+        d = CoreCheck.distribution(self, [c for c in cases if not c.startswith("LONGRUN ")])
+        d["loops_beyond_65536_iterations_implementation_and_monitors_only"] = sum(1 for c in cases if c.startswith("LONGRUN "))
+        return d
+
+
+def _impl_and_monitors_only(self, ctx, cases, prefix, base_correspond, label):
+    """pseudo-cases `<prefix> <scenario>`: run the implementation and the Coq monitors on its trace, no model trace
+    (the extracted model is too slow for them); everything else goes through base_correspond"""
+    import runner
+    small = [i for i, c in enumerate(cases) if not c.startswith(prefix)]
+    big = [i for i, c in enumerate(cases) if c.startswith(prefix)]
+    s0 = base_correspond(self, ctx, [cases[i] for i in small])
+    n = len(cases)
+    st = {"n": n, "div": [], "crashes": [], "monfail": [], "nontrivial": s0["nontrivial"], "mres": [("", None)] * n,
+          "ires": [("", None)] * n, "mon": ["OK"] * n, "monfail_other_properties": s0.get("monfail_other_properties", 0)}
+    for key in ("div", "crashes", "monfail"):
+        st[key] += [(small[j], why) for j, why in s0[key]]
+    for j, i in enumerate(small):
+        st["mres"][i] = s0["mres"][j]
+        st["ires"][i] = s0["ires"][j]
+        if s0["mon"] is not None:
+            st["mon"][i] = s0["mon"][j]
+    if big:
+        scen = [cases[i][len(prefix):] for i in big]
+        ires = runner.run_cases_sharded(self.impl_cmd(ctx), scen, timeout=self.timeout(ctx), env=dict(runner.ASAN_ENV))
+        mon = runner.run_monitor(self.monitor_cmd(ctx), scen, [r[0] or "" for r in ires], ctx.work)
+        for i, (io, ierr), v in zip(big, ires, mon):
+            st["ires"][i] = (io[-4000:] if io else io, ierr)
+            st["mres"][i] = ("(%s: implementation + Coq monitors only, no model trace)" % label, None)
+            st["mon"][i] = v
+            if ierr is not None or not io:
+                st["crashes"].append((i, ierr or "no output"))
+            elif " | CRASH" in io:
+                st["crashes"].append((i, io.rsplit(" | ", 1)[-1][:600]))
+            elif not v.startswith("OK"):
+                st["monfail"].append((i, v + " (monitor clauses on the implementation trace, %s)" % label))
+            else:
+                st["nontrivial"] += 1
+    for key in ("div", "crashes", "monfail"):
+        st[key].sort(key=lambda x: x[0])
+    return st
 
 
 class C07(CoreCheck):
